@@ -135,6 +135,265 @@ Section Render.
 (* in-place helpers for the monad on lists *)
 Definition ret {A} (a : A) (p : pz) : res (A * pz) := Ok (a, p).
 
+(* ---- the body of QueryBuilder.get_sql (and its dialect overrides), clause by clause ----
+   A Section over the recursive renderers (bound to the Fixpoint below) and over the fields of the statement,
+   so that every clause is a top-level definition theorems can speak about; the two flags of the embedding
+   position (subquery, with_alias) are explicit arguments of tail_with / generic_with / main_with. *)
+Section Q.
+Variables
+  (render_o : ctx -> pz -> oterm -> res (option str * pz))
+  (render_ts : ctx -> pz -> terms -> res (list str * pz))
+  (render_obys : ctx -> list (option str) -> bool -> pz -> obys -> res (list str * pz))
+  (render_rows : ctx -> pz -> rows -> res (list str * pz))
+  (render_upds : ctx -> ctx -> pz -> upds -> res (list str * pz))
+  (render_cupds : ctx -> ctx -> option str -> pz -> cupds -> res (list str * pz))
+  (render_joins : ctx -> pz -> joins -> res (list str * pz))
+  (render_ctes : ctx -> pz -> ctes -> res (list str * pz))
+  (render_gbys : ctx -> pz -> gbys -> res (list str * pz)).
+Variables (c00 : ctx) (cls : bcls)
+  (alias : option str) (delete_from replace_ distinct for_update nowait skip_locked with_totals mysql_rollup
+          select_into foreign_table on_conflict do_nothing : bool)
+  (for_update_of : list str) (modifiers : list str) (top : option Z)
+  (from : terms) (withs : ctes) (selects : terms) (force_idx use_idx : terms) (columns : terms) (values : rows)
+  (wheres prewheres havings : oterm) (groupbys : gbys) (orderbys : obys) (joins_ : joins) (lim off : oterm)
+  (updates : upds) (insert_table update_table : oterm)
+  (conflict_fields : terms) (conflict_updates : cupds) (conflict_wheres conflict_update_wheres : oterm)
+  (returns distinct_on : terms).
+
+
+Definition has_sel := is_nonempty_terms selects.
+Definition has_ins := is_some_t insert_table.
+Definition has_upd := is_some_t update_table.
+Definition has_vals := match values with RNil => false | _ => true end.
+Definition has_updates := match updates with UNil => false | _ => true end.
+Definition has_joins := match joins_ with JNil => false | _ => true end.
+Definition c0 := match cls with BMSSQL | BOracle => set_groupby_alias false c00 | _ => c00 end.
+Definition ns := has_joins || from_len_gt1 from || from0_is_query from || foreign_table || (has_upd && is_nonempty_terms from).
+Definition c := set_with_namespace ns (set_subquery false (set_with_alias false (set_subcriterion false c0))).
+Definition sel_aliases := aliases_of selects.
+Definition with_sql p := match withs with
+                      | WNil => Ok ([], p)
+                      | _ => do (ss, p1) <- render_ctes c p withs; Ok (L "WITH " ++ join [44] ss, p1)
+                      end.
+Definition distinct_sql p :=
+        match cls, distinct_on with
+        | BPostgreSQL, TCons _ _ =>
+            do (ss, p1) <- render_ts (set_with_alias true c) p distinct_on; Ok (L "DISTINCT ON(" ++ join [44] ss ++ L ") ", p1)
+        | _, _ => Ok ((if distinct then L "DISTINCT " else []), p)
+        end.
+Definition select_sql p :=
+        do (sd, p1) <- distinct_sql p;
+        do (ss, p2) <- render_ts (set_with_alias true (set_subquery true c)) p1 selects;
+        let extra := match cls with
+                     | BMSSQL => match top with Some z => if Z.eqb z 0 then [] else L "TOP (" ++ Z_to_str z ++ L ") " | None => [] end
+                     | BMySQL => match modifiers with [] => [] | _ => join [32] modifiers ++ [32] end
+                     | _ => []
+                     end in
+        Ok (L "SELECT " ++ sd ++ extra ++ join [44] ss, p2).
+Definition from_list_sql p (l : terms) := do (ss, p1) <- render_ts (set_with_alias true (set_subquery true c)) p l;
+                                       Ok (L " FROM " ++ join [44] ss, p1).
+Definition from_sql p := match from with TNil => Ok ([], p) | _ => from_list_sql p from end.
+Definition joins_sql p := match joins_ with
+                       | JNil => Ok ([], p)
+                       | _ => do (ss, p1) <- render_joins c p joins_; Ok ([32] ++ join [32] ss, p1)
+                       end.
+Definition where_sql p := do (o, p1) <- render_o (set_subquery true c) p wheres;
+                       Ok ((match o with Some s => L " WHERE " ++ s | None => [] end), p1).
+Definition prewhere_sql p := do (o, p1) <- render_o (set_subquery true c) p prewheres;
+                          Ok ((match o with Some s => L " PREWHERE " ++ s | None => [] end), p1).
+Definition set_sql p := do (ss, p1) <- render_upds (set_with_namespace false c) (set_subquery true c) p updates; Ok (L " SET " ++ join [44] ss, p1).
+Definition orderby_sql_c (cc : ctx) p :=
+                         match orderbys with
+                         | ONil => Ok ([], p)
+                         | _ => do (ss, p1) <- render_obys (set_subquery true cc) sel_aliases true p orderbys; Ok (L " ORDER BY " ++ join [44] ss, p1)
+                         end.
+Definition orderby_sql := orderby_sql_c c.
+Definition limit_kw_sql_c (cc : ctx) p :=
+                          do (o, p1) <- render_o cc p lim;
+                          Ok ((match o with
+                               | Some s => (match cls with BMSSQL | BOracle => L " FETCH NEXT " ++ s ++ L " ROWS ONLY" | _ => L " LIMIT " ++ s end)
+                               | None => (* SQLite / MySQL: no OFFSET without LIMIT *)
+                                         match cls, off with
+                                         | BSQLite, SomeT _ => L " LIMIT -1"
+                                         | BMySQL, SomeT _ => L " LIMIT 18446744073709551615"
+                                         | _, _ => []
+                                         end
+                               end), p1).
+Definition limit_kw_sql := limit_kw_sql_c c.
+Definition offset_kw_sql p :=
+        match cls with
+        | BMSSQL =>
+            do (o, p1) <- render_o c p off;
+            Ok ((match orderbys with ONil => L " ORDER BY (SELECT 0)" | _ => [] end) ++ L " OFFSET " ++
+                (match o with Some s => s | None => L "0" end) ++ L " ROWS", p1)
+        | BOracle => do (o, p1) <- render_o c p off; Ok ((match o with Some s => L " OFFSET " ++ s ++ L " ROWS" | None => [] end), p1)
+        | _ => do (o, p1) <- render_o c p off; Ok ((match o with Some s => L " OFFSET " ++ s | None => [] end), p1)
+        end.
+Definition pagination p :=
+        match cls with
+        | BMSSQL =>
+            do (so, p1) <- (if is_some_t lim || is_some_t off then offset_kw_sql p else Ok ([], p));
+            do (sl, p2) <- (if is_some_t lim then limit_kw_sql p1 else Ok ([], p1));
+            Ok (so ++ sl, p2)
+        | BOracle => do (so, p1) <- offset_kw_sql p; do (sl, p2) <- limit_kw_sql p1; Ok (so ++ sl, p2)
+        | _ => do (sl, p1) <- limit_kw_sql p; do (so, p2) <- offset_kw_sql p1; Ok (sl ++ so, p2)
+        end.
+Definition table_sql (cc : ctx) p (o : oterm) := do (x, p1) <- render_o cc p o; Ok (opt_app x, p1).
+Definition on_conflict_sql p :=
+        match cls with
+        | BMySQL => Ok (alias_sql (set_as_keyword true c) [] alias, p)
+        | _ =>
+          let no_upd := match conflict_updates with CUNil => true | _ => false end in
+          let no_fields := negb (is_nonempty_terms conflict_fields) in
+          if negb do_nothing && no_upd then (if no_fields then Ok ([], p) else Exn EQueryExn)
+          else if negb no_upd && no_fields then Exn EQueryExn
+          else
+            do (sf, p1) <- render_ts (set_with_alias true c) p conflict_fields;
+            do (ow, p2) <- render_o (set_subquery true c) p1 conflict_wheres;
+            Ok (L " ON CONFLICT" ++ (match sf with [] => [] | _ => L " (" ++ join (L ", ") sf ++ L ")" end) ++
+                (match ow with Some w => L " WHERE " ++ w | None => [] end), p2)
+        end.
+Definition on_conflict_action_sql p :=
+        let cn := set_with_namespace false c in
+        match cls with
+        | BMySQL =>
+            match conflict_updates with
+            | CUNil => Ok ([], p)
+            | _ => do (ss, p1) <- render_cupds cn cn (Some (fquote (quote_char c) (ostr alias))) p conflict_updates;
+                   Ok (L " ON DUPLICATE KEY UPDATE " ++ join [44] ss, p1)
+            end
+        | _ =>
+            if do_nothing then Ok (L " DO NOTHING", p)
+            else match conflict_updates with
+                 | CUNil => Ok ([], p)
+                 | _ =>
+                   do (ss, p1) <- render_cupds cn (set_with_namespace true cn) None p conflict_updates;
+                   do (ow, p2) <- render_o (set_with_namespace true (set_subquery true cn)) p1 conflict_update_wheres;
+                   Ok (L " DO UPDATE SET " ++ join [44] ss ++ (match ow with Some w => L " WHERE " ++ w | None => [] end), p2)
+                 end
+        end.
+Definition for_update_sql :=
+        if for_update then
+          L " FOR UPDATE" ++
+          (match for_update_of with
+           | [] => []
+           | l => L " OF " ++ join (L ", ") (map (fun n => fquote (quote_char c) n) l)
+           end) ++ (if nowait then L " NOWAIT" else if skip_locked then L " SKIP LOCKED" else [])
+        else [].
+Definition generic_update p :=
+        do (sw, p1) <- with_sql p;
+        do (st, p2) <- table_sql c p1 update_table;
+        do (sj, p3) <- joins_sql p2;
+        do (ss, p4) <- set_sql p3;
+        do (sf, p5) <- from_sql p4;
+        do (swh, p6) <- where_sql p5;
+        Ok (sw ++ L "UPDATE " ++ st ++ sj ++ ss ++ sf ++ swh, p6).
+Definition pg_sqlite_update p :=
+        do (sw, p1) <- with_sql p;
+        do (st, p2) <- table_sql c p1 update_table;
+        do (ss, p3) <- set_sql p2;
+        (* FROM <from...>[,<update table> AS <name>_] when there are joins *)
+        do (sf, p4) <- (match joins_, update_table with
+                        | JCons _ _, SomeT (TTable r f fp) =>
+                            (* self._update_table.as_(get_table_name() + "_") rendered after the FROM items *)
+                            let fc := set_with_alias true (set_subquery true c) in
+                            do (s1, pa) <- render_ts fc p3 from;
+                            do (ofor, pb) <- render_o fc pa f;
+                            do (ofp, pc) <- (match ofor with Some _ => Ok (None, pb) | None => render_o fc pb fp end);
+                            Ok (L " FROM " ++ join [44] (s1 ++ [table_text fc r ofor ofp (Some (qualifier r ++ [95]))]), pc)
+                        | JCons _ _, _ => Exn EAttr
+                        | JNil, _ => from_sql p3
+                        end);
+        do (sj, p5) <- joins_sql p4;
+        do (swh, p6) <- where_sql p5;
+        do (so, p7) <- orderby_sql p6;
+        do (sl, p8) <- (if is_some_t lim then limit_kw_sql p7 else Ok ([], p7));
+        Ok (sw ++ L "UPDATE " ++ st ++ ss ++ sf ++ sj ++ swh ++ so ++ sl, p8).
+Definition tail_with (sq wa : bool) (qs : str) p :=       (* everything after the head of a SELECT / DELETE / INSERT..SELECT *)
+        do (sf, p1) <- from_sql p;
+        do (sfi, p2) <- (match force_idx with TNil => Ok ([], p1)
+                         | _ => do (ss, p') <- render_ts c p1 force_idx; Ok (L " FORCE INDEX (" ++ join [44] ss ++ L ")", p') end);
+        do (sui, p3) <- (match use_idx with TNil => Ok ([], p2)
+                         | _ => do (ss, p') <- render_ts c p2 use_idx; Ok (L " USE INDEX (" ++ join [44] ss ++ L ")", p') end);
+        do (sj, p4) <- joins_sql p3;
+        do (spw, p5) <- prewhere_sql p4;
+        do (sw, p6) <- where_sql p5;
+        do (sg, p7) <- (match groupbys with
+                        | GNil => Ok ([], p6)
+                        | _ => do (ss, p') <- render_gbys (set_subquery true c) p6 groupbys;
+                               Ok (L " GROUP BY " ++ join [44] ss ++ (if with_totals then L " WITH TOTALS" else []) ++
+                                   (if mysql_rollup then L " WITH ROLLUP" else []), p')
+                        end);
+        do (sh, p8) <- (do (o, p') <- render_o (set_subquery true c) p7 havings; Ok ((match o with Some s => L " HAVING " ++ s | None => [] end), p'));
+        do (so, p9) <- orderby_sql p8;
+        do (sp, p10) <- pagination p9;
+        let qs := qs ++ sf ++ sfi ++ sui ++ sj ++ spw ++ sw ++ sg ++ sh ++ so ++ sp ++ for_update_sql in
+        let qs := paren_if sq qs in
+        do (qs, p11) <- (if on_conflict then
+                           do (s1, p') <- on_conflict_sql p10; do (s2, p'') <- on_conflict_action_sql p'; Ok (qs ++ s1 ++ s2, p'')
+                         else Ok (qs, p10));
+        Ok (alias_if wa c qs alias, p11).
+Definition generic_with (sq wa : bool) p :=
+        if has_upd then generic_update p
+        else if delete_from then tail_with sq wa (L "DELETE") p
+        else if negb select_into && has_ins then
+          do (sw, p1) <- with_sql p;
+          do (st, p2) <- table_sql c p1 insert_table;
+          let head := sw ++ (if replace_ then L "REPLACE INTO "
+                             else match cls with BMySQL => (if do_nothing then L "INSERT IGNORE INTO " else L "INSERT INTO ")
+                                  | _ => L "INSERT INTO " end) ++ st in
+          do (sc, p3) <- (match columns with TNil => Ok ([], p2)
+                          | _ => do (ss, p') <- render_ts (set_with_namespace false c) p2 columns; Ok (L " (" ++ join [44] ss ++ L ")", p') end);
+          if has_vals then
+            do (sr, p4) <- render_rows (set_with_alias true (set_subquery true c)) p3 values;
+            let qs := head ++ sc ++ L " VALUES (" ++ join (L "),(") sr ++ L ")" in
+            if on_conflict then
+              do (s1, p5) <- on_conflict_sql p4; do (s2, p6) <- on_conflict_action_sql p5; Ok (qs ++ s1 ++ s2, p6)
+            else Ok (qs, p4)
+          else
+            do (ssel, p4) <- select_sql p3; tail_with sq wa (head ++ sc ++ [32] ++ ssel) p4
+        else
+          do (sw, p1) <- with_sql p;
+          do (ssel, p2) <- select_sql p1;
+          do (si, p3) <- (if has_ins then do (st, p') <- table_sql (set_with_alias false c) p2 insert_table; Ok (L " INTO " ++ st, p')
+                          else Ok ([], p2));
+          tail_with sq wa (sw ++ ssel ++ si) p3.
+Definition returning (qs : str) p :=
+        match cls, returns with
+        | BPostgreSQL, TCons _ _ =>
+            do (ss, p1) <- render_ts (set_with_alias true (set_with_namespace has_upd c)) p returns;
+            Ok (qs ++ L " RETURNING " ++ join [44] ss, p1)
+        | _, _ => Ok (qs, p)
+        end.
+
+Definition main_with (sq wa : bool) p : res (str * pz) :=
+    match cls with
+    | BPostgreSQL =>
+        do (qs, p1) <- (if has_upd then pg_sqlite_update p else generic_with sq wa p); returning qs p1
+    | BSQLite => if has_upd then pg_sqlite_update p else generic_with sq wa p
+    | BMySQL =>
+        do (qs, p1) <- generic_with sq wa p;
+        match qs, has_upd with
+        | _ :: _, true =>
+            (* MySQLQueryBuilder.get_sql appends these with the context it was called with *)
+            do (so, p2) <- orderby_sql_c c0 p1;
+            do (sl, p3) <- (if is_some_t lim then limit_kw_sql_c c0 p2 else Ok ([], p2));
+            Ok (qs ++ so ++ sl, p3)
+        | _, _ => Ok (qs, p1)
+        end
+    | _ => generic_with sq wa p
+    end.
+
+(* an incomplete builder renders the empty string *)
+Definition q_render p : res (str * pz) :=
+  if negb (has_sel || has_ins || delete_from || has_upd) then Ok ([], p)
+  else if has_ins && negb (has_sel || has_vals) then Ok ([], p)
+  else if has_upd && negb has_updates then Ok ([], p)
+  else main_with (subquery c0) (with_alias c0) p.
+
+End Q.
+
+
 Fixpoint render (c : ctx) (p : pz) (t : term) {struct t} : res (str * pz) :=
   match t with
   | TField name tbl alias =>
@@ -451,234 +710,12 @@ with render_query (c0 : ctx) (p : pz) (q : query) {struct q} : res (str * pz) :=
   match fl with
   | MkFl alias delete_from replace_ distinct for_update nowait skip_locked with_totals mysql_rollup select_into foreign_table
          on_conflict do_nothing wrap_setops for_update_of modifiers top wrapper =>
-    let has_sel := is_nonempty_terms selects in
-    let has_ins := is_some_t insert_table in
-    let has_upd := is_some_t update_table in
-    let has_vals := match values with RNil => false | _ => true end in
-    let has_updates := match updates with UNil => false | _ => true end in
-    let has_joins := match joins_ with JNil => false | _ => true end in
-    if negb (has_sel || has_ins || delete_from || has_upd) then Ok ([], p)
-    else if has_ins && negb (has_sel || has_vals) then Ok ([], p)
-    else if has_upd && negb has_updates then Ok ([], p)
-    else
-    (* dialect get_sql overrides that copy the context first *)
-    let c0 := match cls with BMSSQL | BOracle => set_groupby_alias false c0 | _ => c0 end in
-    let ns := has_joins || from_len_gt1 from || from0_is_query from || foreign_table || (has_upd && is_nonempty_terms from) in
-    (* the flags of the embedding position decide only about the parentheses and the alias around the whole statement *)
-    let c := set_with_namespace ns (set_subquery false (set_with_alias false (set_subcriterion false c0))) in
-    let sel_aliases := aliases_of selects in
-    (* ---- clause helpers (closed terms over the components of q) ---- *)
-    let with_sql p := match withs with
-                      | WNil => Ok ([], p)
-                      | _ => do (ss, p1) <- render_ctes c p withs; Ok (L "WITH " ++ join [44] ss, p1)
-                      end in
-    let distinct_sql p :=
-        match cls, distinct_on with
-        | BPostgreSQL, TCons _ _ =>
-            do (ss, p1) <- render_ts (set_with_alias true c) p distinct_on; Ok (L "DISTINCT ON(" ++ join [44] ss ++ L ") ", p1)
-        | _, _ => Ok ((if distinct then L "DISTINCT " else []), p)
-        end in
-    let select_sql p :=
-        do (sd, p1) <- distinct_sql p;
-        do (ss, p2) <- render_ts (set_with_alias true (set_subquery true c)) p1 selects;
-        let extra := match cls with
-                     | BMSSQL => match top with Some z => if Z.eqb z 0 then [] else L "TOP (" ++ Z_to_str z ++ L ") " | None => [] end
-                     | BMySQL => match modifiers with [] => [] | _ => join [32] modifiers ++ [32] end
-                     | _ => []
-                     end in
-        Ok (L "SELECT " ++ sd ++ extra ++ join [44] ss, p2) in
-    let from_list_sql p (l : terms) := do (ss, p1) <- render_ts (set_with_alias true (set_subquery true c)) p l;
-                                       Ok (L " FROM " ++ join [44] ss, p1) in
-    let from_sql p := match from with TNil => Ok ([], p) | _ => from_list_sql p from end in
-    let joins_sql p := match joins_ with
-                       | JNil => Ok ([], p)
-                       | _ => do (ss, p1) <- render_joins c p joins_; Ok ([32] ++ join [32] ss, p1)
-                       end in
-    let where_sql p := do (o, p1) <- render_o (set_subquery true c) p wheres;
-                       Ok ((match o with Some s => L " WHERE " ++ s | None => [] end), p1) in
-    let prewhere_sql p := do (o, p1) <- render_o (set_subquery true c) p prewheres;
-                          Ok ((match o with Some s => L " PREWHERE " ++ s | None => [] end), p1) in
-    let set_sql p := do (ss, p1) <- render_upds (set_with_namespace false c) (set_subquery true c) p updates; Ok (L " SET " ++ join [44] ss, p1) in
-    let orderby_sql_c (cc : ctx) p :=
-                         match orderbys with
-                         | ONil => Ok ([], p)
-                         | _ => do (ss, p1) <- render_obys (set_subquery true cc) sel_aliases true p orderbys; Ok (L " ORDER BY " ++ join [44] ss, p1)
-                         end in
-    let orderby_sql := orderby_sql_c c in
-    let limit_kw_sql_c (cc : ctx) p :=
-                          do (o, p1) <- render_o cc p lim;
-                          Ok ((match o with
-                               | Some s => (match cls with BMSSQL | BOracle => L " FETCH NEXT " ++ s ++ L " ROWS ONLY" | _ => L " LIMIT " ++ s end)
-                               | None => (* SQLite / MySQL: no OFFSET without LIMIT *)
-                                         match cls, off with
-                                         | BSQLite, SomeT _ => L " LIMIT -1"
-                                         | BMySQL, SomeT _ => L " LIMIT 18446744073709551615"
-                                         | _, _ => []
-                                         end
-                               end), p1) in
-    let limit_kw_sql := limit_kw_sql_c c in
-    let offset_kw_sql p :=
-        match cls with
-        | BMSSQL =>
-            do (o, p1) <- render_o c p off;
-            Ok ((match orderbys with ONil => L " ORDER BY (SELECT 0)" | _ => [] end) ++ L " OFFSET " ++
-                (match o with Some s => s | None => L "0" end) ++ L " ROWS", p1)
-        | BOracle => do (o, p1) <- render_o c p off; Ok ((match o with Some s => L " OFFSET " ++ s ++ L " ROWS" | None => [] end), p1)
-        | _ => do (o, p1) <- render_o c p off; Ok ((match o with Some s => L " OFFSET " ++ s | None => [] end), p1)
-        end in
-    let pagination p :=
-        match cls with
-        | BMSSQL =>
-            do (so, p1) <- (if is_some_t lim || is_some_t off then offset_kw_sql p else Ok ([], p));
-            do (sl, p2) <- (if is_some_t lim then limit_kw_sql p1 else Ok ([], p1));
-            Ok (so ++ sl, p2)
-        | BOracle => do (so, p1) <- offset_kw_sql p; do (sl, p2) <- limit_kw_sql p1; Ok (so ++ sl, p2)
-        | _ => do (sl, p1) <- limit_kw_sql p; do (so, p2) <- offset_kw_sql p1; Ok (sl ++ so, p2)
-        end in
-    let table_sql (cc : ctx) p (o : oterm) := do (x, p1) <- render_o cc p o; Ok (opt_app x, p1) in
-    let on_conflict_sql p :=
-        match cls with
-        | BMySQL => Ok (alias_sql (set_as_keyword true c) [] alias, p)
-        | _ =>
-          let no_upd := match conflict_updates with CUNil => true | _ => false end in
-          let no_fields := negb (is_nonempty_terms conflict_fields) in
-          if negb do_nothing && no_upd then (if no_fields then Ok ([], p) else Exn EQueryExn)
-          else if negb no_upd && no_fields then Exn EQueryExn
-          else
-            do (sf, p1) <- render_ts (set_with_alias true c) p conflict_fields;
-            do (ow, p2) <- render_o (set_subquery true c) p1 conflict_wheres;
-            Ok (L " ON CONFLICT" ++ (match sf with [] => [] | _ => L " (" ++ join (L ", ") sf ++ L ")" end) ++
-                (match ow with Some w => L " WHERE " ++ w | None => [] end), p2)
-        end in
-    let on_conflict_action_sql p :=
-        let cn := set_with_namespace false c in
-        match cls with
-        | BMySQL =>
-            match conflict_updates with
-            | CUNil => Ok ([], p)
-            | _ => do (ss, p1) <- render_cupds cn cn (Some (fquote (quote_char c) (ostr alias))) p conflict_updates;
-                   Ok (L " ON DUPLICATE KEY UPDATE " ++ join [44] ss, p1)
-            end
-        | _ =>
-            if do_nothing then Ok (L " DO NOTHING", p)
-            else match conflict_updates with
-                 | CUNil => Ok ([], p)
-                 | _ =>
-                   do (ss, p1) <- render_cupds cn (set_with_namespace true cn) None p conflict_updates;
-                   do (ow, p2) <- render_o (set_with_namespace true (set_subquery true cn)) p1 conflict_update_wheres;
-                   Ok (L " DO UPDATE SET " ++ join [44] ss ++ (match ow with Some w => L " WHERE " ++ w | None => [] end), p2)
-                 end
-        end in
-    let for_update_sql :=
-        if for_update then
-          L " FOR UPDATE" ++
-          (match for_update_of with
-           | [] => []
-           | l => L " OF " ++ join (L ", ") (map (fun n => fquote (quote_char c) n) l)
-           end) ++ (if nowait then L " NOWAIT" else if skip_locked then L " SKIP LOCKED" else [])
-        else [] in
-    (* ---- QueryBuilder.get_sql proper ---- *)
-    let generic_update p :=
-        do (sw, p1) <- with_sql p;
-        do (st, p2) <- table_sql c p1 update_table;
-        do (sj, p3) <- joins_sql p2;
-        do (ss, p4) <- set_sql p3;
-        do (sf, p5) <- from_sql p4;
-        do (swh, p6) <- where_sql p5;
-        Ok (sw ++ L "UPDATE " ++ st ++ sj ++ ss ++ sf ++ swh, p6) in
-    let pg_sqlite_update p :=
-        do (sw, p1) <- with_sql p;
-        do (st, p2) <- table_sql c p1 update_table;
-        do (ss, p3) <- set_sql p2;
-        (* FROM <from...>[,<update table> AS <name>_] when there are joins *)
-        do (sf, p4) <- (match joins_, update_table with
-                        | JCons _ _, SomeT (TTable r f fp) =>
-                            (* self._update_table.as_(get_table_name() + "_") rendered after the FROM items *)
-                            let fc := set_with_alias true (set_subquery true c) in
-                            do (s1, pa) <- render_ts fc p3 from;
-                            do (ofor, pb) <- render_o fc pa f;
-                            do (ofp, pc) <- (match ofor with Some _ => Ok (None, pb) | None => render_o fc pb fp end);
-                            Ok (L " FROM " ++ join [44] (s1 ++ [table_text fc r ofor ofp (Some (qualifier r ++ [95]))]), pc)
-                        | JCons _ _, _ => Exn EAttr
-                        | JNil, _ => from_sql p3
-                        end);
-        do (sj, p5) <- joins_sql p4;
-        do (swh, p6) <- where_sql p5;
-        do (so, p7) <- orderby_sql p6;
-        do (sl, p8) <- (if is_some_t lim then limit_kw_sql p7 else Ok ([], p7));
-        Ok (sw ++ L "UPDATE " ++ st ++ ss ++ sf ++ sj ++ swh ++ so ++ sl, p8) in
-    let tail (qs : str) p :=       (* everything after the head of a SELECT / DELETE / INSERT..SELECT *)
-        do (sf, p1) <- from_sql p;
-        do (sfi, p2) <- (match force_idx with TNil => Ok ([], p1)
-                         | _ => do (ss, p') <- render_ts c p1 force_idx; Ok (L " FORCE INDEX (" ++ join [44] ss ++ L ")", p') end);
-        do (sui, p3) <- (match use_idx with TNil => Ok ([], p2)
-                         | _ => do (ss, p') <- render_ts c p2 use_idx; Ok (L " USE INDEX (" ++ join [44] ss ++ L ")", p') end);
-        do (sj, p4) <- joins_sql p3;
-        do (spw, p5) <- prewhere_sql p4;
-        do (sw, p6) <- where_sql p5;
-        do (sg, p7) <- (match groupbys with
-                        | GNil => Ok ([], p6)
-                        | _ => do (ss, p') <- render_gbys (set_subquery true c) p6 groupbys;
-                               Ok (L " GROUP BY " ++ join [44] ss ++ (if with_totals then L " WITH TOTALS" else []) ++
-                                   (if mysql_rollup then L " WITH ROLLUP" else []), p')
-                        end);
-        do (sh, p8) <- (do (o, p') <- render_o (set_subquery true c) p7 havings; Ok ((match o with Some s => L " HAVING " ++ s | None => [] end), p'));
-        do (so, p9) <- orderby_sql p8;
-        do (sp, p10) <- pagination p9;
-        let qs := qs ++ sf ++ sfi ++ sui ++ sj ++ spw ++ sw ++ sg ++ sh ++ so ++ sp ++ for_update_sql in
-        let qs := paren_if (subquery c0) qs in
-        do (qs, p11) <- (if on_conflict then
-                           do (s1, p') <- on_conflict_sql p10; do (s2, p'') <- on_conflict_action_sql p'; Ok (qs ++ s1 ++ s2, p'')
-                         else Ok (qs, p10));
-        Ok (alias_if (with_alias c0) c qs alias, p11) in
-    let generic p :=
-        if has_upd then generic_update p
-        else if delete_from then tail (L "DELETE") p
-        else if negb select_into && has_ins then
-          do (sw, p1) <- with_sql p;
-          do (st, p2) <- table_sql c p1 insert_table;
-          let head := sw ++ (if replace_ then L "REPLACE INTO "
-                             else match cls with BMySQL => (if do_nothing then L "INSERT IGNORE INTO " else L "INSERT INTO ")
-                                  | _ => L "INSERT INTO " end) ++ st in
-          do (sc, p3) <- (match columns with TNil => Ok ([], p2)
-                          | _ => do (ss, p') <- render_ts (set_with_namespace false c) p2 columns; Ok (L " (" ++ join [44] ss ++ L ")", p') end);
-          if has_vals then
-            do (sr, p4) <- render_rows (set_with_alias true (set_subquery true c)) p3 values;
-            let qs := head ++ sc ++ L " VALUES (" ++ join (L "),(") sr ++ L ")" in
-            if on_conflict then
-              do (s1, p5) <- on_conflict_sql p4; do (s2, p6) <- on_conflict_action_sql p5; Ok (qs ++ s1 ++ s2, p6)
-            else Ok (qs, p4)
-          else
-            do (ssel, p4) <- select_sql p3; tail (head ++ sc ++ [32] ++ ssel) p4
-        else
-          do (sw, p1) <- with_sql p;
-          do (ssel, p2) <- select_sql p1;
-          do (si, p3) <- (if has_ins then do (st, p') <- table_sql (set_with_alias false c) p2 insert_table; Ok (L " INTO " ++ st, p')
-                          else Ok ([], p2));
-          tail (sw ++ ssel ++ si) p3 in
-    let returning (qs : str) p :=
-        match cls, returns with
-        | BPostgreSQL, TCons _ _ =>
-            do (ss, p1) <- render_ts (set_with_alias true (set_with_namespace has_upd c)) p returns;
-            Ok (qs ++ L " RETURNING " ++ join [44] ss, p1)
-        | _, _ => Ok (qs, p)
-        end in
-    match cls with
-    | BPostgreSQL =>
-        do (qs, p1) <- (if has_upd then pg_sqlite_update p else generic p); returning qs p1
-    | BSQLite => if has_upd then pg_sqlite_update p else generic p
-    | BMySQL =>
-        do (qs, p1) <- generic p;
-        match qs, has_upd with
-        | _ :: _, true =>
-            (* MySQLQueryBuilder.get_sql appends these with the context it was called with *)
-            do (so, p2) <- orderby_sql_c c0 p1;
-            do (sl, p3) <- (if is_some_t lim then limit_kw_sql_c c0 p2 else Ok ([], p2));
-            Ok (qs ++ so ++ sl, p3)
-        | _, _ => Ok (qs, p1)
-        end
-    | _ => generic p
-    end
+    q_render render_o render_ts render_obys render_rows render_upds render_cupds render_joins render_ctes render_gbys
+             c0 cls alias delete_from replace_ distinct for_update nowait skip_locked with_totals mysql_rollup
+             select_into foreign_table on_conflict do_nothing for_update_of modifiers top
+             from withs selects force_idx use_idx columns values wheres prewheres havings groupbys orderbys joins_ lim off
+             updates insert_table update_table conflict_fields conflict_updates conflict_wheres conflict_update_wheres
+             returns distinct_on p
   end end.
 
 End Render.
